@@ -34,7 +34,7 @@ TITLE = "All sampler entry points compute the same, correct block estimator"
 
 MENU = {"quick": 64, "thorough": 256}
 TIERS = {
-    "quick": dict(runs=64 * 6, budget_s=200, recheck=2, shrink_s=60.0, run_timeout_s=900),
+    "quick": dict(runs=64 * 6, budget_s=330, recheck=2, shrink_s=60.0, run_timeout_s=900),
     "thorough": dict(runs=256 * 60, budget_s=1200, recheck=6, shrink_s=180.0, run_timeout_s=1800),
 }
 
